@@ -633,7 +633,7 @@ func (server *SugarDB) evictKeysWithExpiredTTL(ctx context.Context) error {
 	// whichever one is smaller.
 	sampleSize := int(server.config.EvictionSample)
 	if len(server.keysWithExpiry.keys[database]) < sampleSize {
-		sampleSize = len(server.keysWithExpiry.keys)
+		sampleSize = len(server.keysWithExpiry.keys[database])
 	}
 	keys := make([]string, sampleSize)
 
@@ -645,7 +645,7 @@ func (server *SugarDB) evictKeysWithExpiredTTL(ctx context.Context) error {
 	for i := 0; i < len(keys); i++ {
 		for {
 			// Retry retrieval of a random key until we find a key that is not already in the list of sampled keys.
-			idx = rand.Intn(len(server.keysWithExpiry.keys))
+			idx = rand.Intn(len(server.keysWithExpiry.keys[database]))
 			key = server.keysWithExpiry.keys[database][idx]
 			if !slices.Contains(keys, key) {
 				keys[i] = key
